@@ -470,30 +470,16 @@ Definition concat (a b : value) : option value :=
        | _, _ => None
        end.
 
-(* ---------------------------------------------------------------- svLogicVecVal (Annex H) *)
-Definition M32 : N := 2 ^ 32.
-Fixpoint to_sv_words (n : nat) (p m : N) : list (N * N) :=
-  match n with
-  | O => []
-  | S n' => let p32 := p mod M32 in let m32 := m mod M32 in
-            (N.lxor p32 m32, m32) :: to_sv_words n' (p / M32) (m / M32)
-  end.
-Definition sv_len (w : N) : N := if w mod 32 =? 0 then w / 32 else w / 32 + 1.
-Definition to_sv (v : value) : list (N * N) := to_sv_words (N.to_nat (sv_len (wd v))) (pl v) (mk v).
-
-Definition of_sv (ws : list (N * N)) : value :=
-  let width := N.of_nat (length ws) * 32 in
-  let acc := fold_left (fun (pm : N * N) (ab : N * N) =>
-                          let '(p, m) := pm in let '(a, b) := ab in
-                          (N.lor (p * M32) (N.lxor a b), N.lor (m * M32) b)) (rev ws) (0, 0) in
-  let '(p, m) := acc in
-  if 64 <? width then mkV RB p m width false
-  else mkV RU (p mod M64) (m mod M64) width false.
+(* svLogicVecVal conversions: see SvLogic/SvModel.v *)
 
 (* vcd::Value as 0,1,2=X,3=Z *)
 Definition to_vcd (v : value) (i : N) : N :=
   if N.testbit (mk v) i then (if N.testbit (pl v) i then 3 else 2)
   else if N.testbit (pl v) i then 1 else 0.
+
+(* IntoIterator for &Value (VcdValueIter): MSB first; what vcd::Writer::change_vector consumes *)
+Definition vcd_iter (v : value) : list N :=
+  map (fun i => to_vcd v (N.of_nat i)) (rev (seq 0 (N.to_nat (wd v)))).
 
 Definition to_fst_bits (v : value) : list N :=
   map (fun i => match to_vcd v (N.of_nat i) with 0 => 48 | 1 => 49 | 2 => 120 | _ => 122 end)
